@@ -113,7 +113,8 @@ pub fn check(c: &Concrete, ex: &Expect) -> (Vec<Violation>, Outcome, Option<Outc
     }
     if let ResultObs::Err(es) = &out.result {
         for r in &ex.removed {
-            if !es.iter().any(|e| e.variant == "FileNotFound" && e.file == *r) {
+            let names_it = |f: &str| *r == f || r.ends_with(&format!("/{}", f.trim_start_matches("./")));
+            if !es.iter().any(|e| e.variant == "FileNotFound" && names_it(&e.file)) {
                 vs.push(v("missing-file-not-reported", "-", format!("{} is imported and missing, but no FileNotFound error names it", r)));
             }
         }
@@ -122,6 +123,7 @@ pub fn check(c: &Concrete, ex: &Expect) -> (Vec<Violation>, Outcome, Option<Outc
     let mut flat_out = None;
     if let Some(flat) = &ex.flattened {
         let mut fc = Concrete::new(&c.main);
+        fc.main_spelling = c.main_spelling.clone();
         fc.files.insert(c.main.clone(), flat.clone());
         fc.no_std = c.no_std;
         fc.hash_seed = c.hash_seed;
@@ -161,6 +163,14 @@ pub fn build(seed: u64) -> (Project, Concrete) {
     let mut fl = Rng::sub(seed, "c12-flags");
     c.no_std = fl.chance(1, 4);
     c.hash_seed = fl.next();
+    // how the main file is named on the command line must not matter
+    c.main_spelling = match fl.below(6) {
+        0 => "bare",
+        1 => "dot-slash",
+        2 => "relative-dir",
+        _ => "absolute",
+    }
+    .to_string();
     (p, c)
 }
 
@@ -192,6 +202,7 @@ pub fn run_one(_env: &Env, index: u64, seed: u64, stats: &mut Stats) -> (Vec<Fou
     if c.no_std {
         stats.inc("flag.no_std");
     }
+    stats.inc(&format!("c12.main_spelling.{}", c.main_spelling));
     stats.inc(&format!("phase.{}", out.phase()));
     match &out.result {
         ResultObs::Ok => stats.inc("result.ok"),
